@@ -13,15 +13,15 @@ class WorkerDied(Exception):
         self.rc = rc
 
 
-def run_batch(ctx, op, reqs, extra_env=None, timeout=300, vmem_kb=4 << 20, cpu_s=None):
+def run_batch(ctx, op, reqs, extra_env=None, timeout=300, vmem_kb=4 << 20, cpu_s=None, bindir=None):
     """Send all requests to one fresh worker process; returns list of replies (dicts).
     If the worker dies or is killed, raises WorkerDied(number of replies received, stderr, rc)."""
     payload = "".join(json.dumps(r, ensure_ascii=False) + "\n" for r in reqs).encode("utf-8", "surrogateescape")
     e = env(**(extra_env or {}))
-    lim = "ulimit -v %d; " % vmem_kb
+    lim = ("ulimit -v %d; " % vmem_kb) if not bindir else ""      # (the race detector reserves far more address space than it uses)
     if cpu_s:
         lim += "ulimit -t %d; " % cpu_s
-    cmd = ["bash", "-c", lim + 'exec "$0" "$1"', os.path.join(ctx.bins, "vworker"), op]
+    cmd = ["bash", "-c", lim + 'exec "$0" "$1"', os.path.join(bindir or ctx.bins, "vworker"), op]
     import signal
     p = subprocess.Popen(cmd, stdin=subprocess.PIPE, stdout=subprocess.PIPE, stderr=subprocess.PIPE, env=e, start_new_session=True)
     try:
